@@ -583,6 +583,8 @@ class Trackers(collections.abc.MutableSequence):
     def replace(self, tiers):
         if not isinstance(tiers, Iterable):
             raise ValueError(f'Not an iterable: {tiers!r}')
+        # Don't clear list before we know all new values are valid
+        tiers = Trackers(tiers)
         with self._callback_disabled():
             self._tiers.clear()
             for urls in tiers:
